@@ -899,9 +899,9 @@ def expose_history(ctx, hi):
 
 
 def expose_workload(ctx):
-    reps = ctx.pick(4, 2000)
+    reps = ctx.pick(8, 2000)
     kk = -1
-    for rep in range(ctx.pick(4, 2500)):
+    for rep in range(ctx.pick(8, 2500)):
         for bits in range(1, 33):
             kk += 1
             if ctx.mine(kk):
@@ -916,7 +916,7 @@ def expose_workload(ctx):
                 if not ctx.mine(k):
                     continue
                 expose_case(ctx, bits, cls, rep)
-    nh = ctx.pick(8, 6000)
+    nh = ctx.pick(24, 6000)
     for h in range(nh):
         if ctx.mine(h):
             expose_history(ctx, h)
@@ -962,7 +962,7 @@ def bin_workload(ctx):
         idx = rs.permutation(len(cases))[:500]
         small = [c for c in cases if len(c[0]) <= 2]
         cases = small + [cases[i] for i in sorted(idx)]
-    for _ in range(ctx.pick(100, 250000)):
+    for _ in range(ctx.pick(600, 250000)):
         nd = int(rs.integers(1, 6))
         top = ctx.pick(6, 9) if nd < 4 else 4
         cases.append((tuple(int(v) for v in rs.integers(1, ctx.pick(6, 12) if nd < 3 else 6, nd)), tuple(int(v) for v in rs.integers(1, top, nd))))
@@ -1064,7 +1064,7 @@ def expose_bin_workload(ctx):
         for level in ('saturating', 'mid'):
             for factor in (2, 4, 8, (2, 4), 'stack'):
                 combos.append((bits, level, factor))
-    reps = ctx.pick(1, 400)
+    reps = ctx.pick(2, 400)
     k = -1
     for rep in range(reps):
         for bits, level, factor in combos:
@@ -1112,7 +1112,7 @@ def bayer_workload(ctx):
     from prysm import bayer
     shapes = [(2, 2), (2, 4), (4, 2), (4, 4), (4, 6), (6, 4), (6, 6), (8, 8), (6, 10), (12, 8), (16, 16), (32, 32), (10, 32)]
     rs = np.random.default_rng([ctx.seed, 16160])
-    for i in range(ctx.pick(60, 40000)):
+    for i in range(ctx.pick(200, 40000)):
         top = 17 if i < 700 else 65
         shapes.append((2 * int(rs.integers(1, top)), 2 * int(rs.integers(1, top))))
     k = -1
